@@ -9,7 +9,7 @@ from ..ctx import engine
 from ..model import AnalysisError, Program
 from ..paths import SymPath, show
 from ..report import Report
-from .common import LOGIC, RUNNERS, SELF, STATE, attr, ctor_args, enum_name, runner_paths
+from .common import is_loop_var, LOGIC, RUNNERS, SELF, STATE, attr, ctor_args, enum_name, runner_paths
 
 ST = ("param", "state")
 
@@ -187,7 +187,7 @@ def run(rep: Report, prog: Program, tier: str) -> None:
             if d.get("last_exception") != ("const", None):
                 problems.append(f"last_exception={show(d.get('last_exception'))}")
             at = d.get("attempts")
-            if not (at is not None and at[0] == "fresh" and at[2] == "attempt"):
+            if not (is_loop_var(at)):
                 problems.append(f"attempts={show(at)}")
             sr = d.get("stop_reason")
             srs = show(sr)
@@ -295,6 +295,35 @@ def run(rep: Report, prog: Program, tier: str) -> None:
                 else:
                     rep.fail("R4.4", f"writer|{fn.qual}|{n.attr}", f"{fn.qual} writes `{n.attr}` (the run state must describe the final failure)", where=fn.where(n), function=fn.qual)
     rep.floor("R4.4", 10)
+
+
+    rep.rule("R4.5", "exception objects are not mutated on the run path: no store to __traceback__/__cause__/__context__/__suppress_context__/args/__notes__, no add_note/clear_frames, with_traceback only with the exception's own traceback (zero-count rule; positive example kept in the self-test)")
+    MUT = {"__traceback__", "__cause__", "__context__", "__suppress_context__", "args", "__notes__"}
+    n_mod = 0
+    for fn in prog.funcs.values():
+        if not fn.module.name.startswith("redress.policy"):
+            continue
+        n_mod += 1
+        bad = []
+        for n in prog._own_nodes(fn.node):
+            if isinstance(n, ast.Attribute) and n.attr in MUT and isinstance(n.ctx, (ast.Store, ast.Del)):
+                bad.append((n, f"writes `{ast.unparse(n)}`"))
+            if isinstance(n, ast.Call) and isinstance(n.func, ast.Attribute) and n.func.attr in ("add_note", "clear_frames"):
+                bad.append((n, f"calls {ast.unparse(n.func)}"))
+            if isinstance(n, ast.Call) and isinstance(n.func, ast.Name) and n.func.id in ("setattr", "delattr") and len(n.args) >= 2 and isinstance(n.args[1], ast.Constant) and n.args[1].value in MUT:
+                bad.append((n, f"{n.func.id}(..., {n.args[1].value!r})"))
+            if isinstance(n, ast.Call) and isinstance(n.func, ast.Attribute) and n.func.attr == "with_traceback":
+                own = len(n.args) == 1 and isinstance(n.args[0], ast.Attribute) and n.args[0].attr == "__traceback__" and ast.unparse(n.args[0].value) == ast.unparse(n.func.value)
+                if not own:
+                    bad.append((n, f"replaces a traceback: {ast.unparse(n)[:60]}"))
+        rep.instance("R4.5", fn.qual)
+        if bad:
+            for n, what in bad[:2]:
+                rep.fail("R4.5", f"{fn.qual}|{what[:50]}", f"{fn.qual} {what}: the exception surfaced by call() must keep its original traceback and links", where=fn.where(n), function=fn.qual)
+        else:
+            rep.ok("R4.5")
+    if n_mod < 100:
+        raise AnalysisError(f"R4.5: only {n_mod} functions scanned")
 
 
 def _all_nested(fi):
